@@ -1024,6 +1024,48 @@ fn cast_into_memory(
         return Some(memory.into_value(builder, ptr_ty));
     }
 
+    // variant -> optional / error union of its own enum (`x : ?E = E.A.(5)`, `x : E!i64 = E.A.(5)`):
+    // the variant has to become the enum first. if it was unwrapped to its payload instead, an
+    // `i32` payload would be mistaken for the *other* side of the sum type
+    if let Ty::EnumVariant { enum_uid, .. } = cast_from.as_ref() {
+        let is_own_enum =
+            |ty: &Intern<Ty>| matches!(ty.as_ref(), Ty::Enum { uid, .. } if uid == enum_uid);
+        let enum_ty = match cast_to.as_ref() {
+            Ty::Optional { sub_ty } => Some(*sub_ty).filter(is_own_enum),
+            Ty::ErrorUnion {
+                error_ty,
+                payload_ty,
+            } => [*error_ty, *payload_ty].into_iter().find(is_own_enum),
+            _ => None,
+        };
+
+        if let Some(enum_ty) = enum_ty {
+            let as_enum = cast_into_memory(
+                meta_tys,
+                module,
+                builder,
+                func_writer,
+                ptr_ty,
+                val,
+                cast_from,
+                enum_ty,
+                None,
+            );
+
+            return cast_into_memory(
+                meta_tys,
+                module,
+                builder,
+                func_writer,
+                ptr_ty,
+                as_enum,
+                enum_ty,
+                cast_to,
+                memory,
+            );
+        }
+    }
+
     // if it wasn't variant -> enum, we unwrap the variant fully and check for other casts
     cast_from = cast_from.absolute_intern_ty(true);
 
